@@ -1,3 +1,62 @@
-import ViaProofs.Statements
+import ViaProofs.ConnLemmas
+/-
+  C09 — connections close exactly when HTTP says so, never before the response is out.
+
+  Decision logic of the close path, for every world, connection, payload and both adaptor flavours:
+  * `C09_close_deferred`   the send of a response to a NON keep-alive request starts the write and only RECORDS the
+                           close (`disconnect_pending_`); no shutdown is issued while the write is in flight
+                           (this is the repaired `shutdown()` → `disconnect()`);
+  * `C09_close_on_completion` the completion of that write performs the shutdown;
+  * `C09_keepalive_stays_open` a keep-alive response schedules nothing and its completion only signals SENT;
+  * `C09_keepalive_iff`    what "keep-alive" means: HTTP version above 1.0 and no `close` token in Connection.
+  The bytes of the response are resolved when the adaptor completes the write, after which (and only then) the
+  shutdown happens, so no announced byte can be cut off by it — whatever the size (the model has no size limit) and
+  whatever the progress schedule (completion is an event of the environment).
+-/
 namespace Via
+open Sim
+
+theorem C09_close_deferred (fuel : Nat) (w : World) (i : Nat) (bufs : List Buf) (hi : i < w.conns.length)
+    (halive : (w.get i).alive = true) (hc : (w.get i).connected = true) (ht : (w.get i).transmitting = false)
+    (hss : (w.get i).shutdownSent = false) (hka : (w.get i).rx.request.keepAlive = false) :
+    let r := httpSendTail (fuel + 2) w i bufs false
+    r.2 = false ∧ (r.1.get i).disconnectPending = true ∧ (r.1.get i).shutdownSent = false ∧
+    (r.1.get i).writes = (w.get i).writes ++ [bufs] :=
+  sendTail_close_deferred fuel w i bufs hi halive hc ht hss hka
+
+theorem C09_no_shutdown_while_writing (fuel : Nat) (w : World) (i : Nat) (h : (w.get i).transmitting = true) :
+    disconnectConn (fuel + 1) w i = w.upd i fun c => { c with disconnectPending := true } :=
+  disconnect_defers fuel w i h
+
+theorem C09_close_on_completion (fuel : Nat) (w : World) (i : Nat)
+    (halive : (w.get i).alive = true) (hss : (w.get i).shutdownSent = false)
+    (hdp : (w.get i).disconnectPending = true) :
+    writeCallback (fuel + 1) w i none = shutdownConn fuel w i :=
+  writeDone_then_shutdown fuel w i halive hss hdp
+
+theorem C09_keepalive_stays_open (fuel : Nat) (w : World) (i : Nat) (bufs : List Buf) (hi : i < w.conns.length)
+    (halive : (w.get i).alive = true) (hc : (w.get i).connected = true) (ht : (w.get i).transmitting = false)
+    (hka : (w.get i).rx.request.keepAlive = true) :
+    let r := httpSendTail (fuel + 2) w i bufs false
+    r.2 = true ∧ (r.1.get i).disconnectPending = (w.get i).disconnectPending ∧
+    (r.1.get i).shutdownSent = (w.get i).shutdownSent :=
+  sendTail_keepalive fuel w i bufs hi halive hc ht hka
+
+theorem C09_keepalive_completion (fuel : Nat) (w : World) (i : Nat)
+    (halive : (w.get i).alive = true) (hss : (w.get i).shutdownSent = false)
+    (hdp : (w.get i).disconnectPending = false) :
+    writeCallback (fuel + 1) w i none =
+      commsEvent fuel (w.upd i fun c => { c with transmitting := false }) i 1 :=
+  writeDone_keepalive fuel w i halive hss hdp
+
+/-- the close decision: HTTP/1.0 or earlier, or a `close` token (any case, anywhere in the value) in Connection -/
+theorem C09_keepalive_iff (q : RQ) :
+    q.keepAlive = true ↔
+      (q.line.isHttp10OrEarlier = false ∧
+       ((q.headers.fields.find (b!"connection")).isEmpty = true ∨
+        containsSub (b!"close") (lowerBytes (q.headers.fields.find (b!"connection"))) = false)) := by
+  unfold RQ.keepAlive MH.closeConnection
+  cases h1 : q.line.isHttp10OrEarlier <;> cases h2 : (q.headers.fields.find (b!"connection")).isEmpty <;>
+    cases h3 : containsSub (b!"close") (lowerBytes (q.headers.fields.find (b!"connection"))) <;> simp_all
+
 end Via
